@@ -23,6 +23,9 @@ Ev(o) == CASE o.k = "add" -> OnAddKey(st, o) [] o.k = "del" -> OnDelete(st, o)
 Next == /\ l < Len(Obs) /\ l' = l + 1
         /\ LET o == Obs[l'] IN
            CASE o.k = "case" -> st' = st /\ Report(l', CaseVerdict(o))
+             \* a corpus document: what parser.Expand emits has to parse back to the same API
+             [] o.k = "expand" -> st' = st /\ Report(l', IF o.peOutcome # "ok" THEN "viol-expanded-spec-does-not-parse-back"
+                                                          ELSE IF o.pe # o.pr THEN "viol-expand-roundtrip" ELSE "ok")
              [] o.k = "begin" -> st' = Begin(o.limit)
              [] OTHER -> LET r == Ev(o) IN st' = r[2] /\ Report(l', IF r[1] THEN "ok" ELSE "viol-event-" \o o.k)
 =============================================================================
